@@ -25,7 +25,7 @@ func init() {
 	mc.Register(&mc.Property{
 		ID:    "C11",
 		Level: "exploration",
-		Rule: "E1 bounded-exhaustive enumeration: every string of length ≤N over {00,ff,a5,5a,01,80} (and 12 strings of 11..66 bytes) × every start bit in [0, 8·len+9] × every width 0..32: FromStr32 (count and value) and, for widths ≤30, PathOf against the slice [from, from+k) of the string's '0'/'1' rendering; PathsOf on every key list of length ≤4 over 5 short keys × dedup on/off × a (from,height) grid against map + adjacent-dedup of the reference paths. " +
+		Rule: "E1 bounded-exhaustive enumeration: every string of length ≤N over {00,ff,a5,5a,01,80} (plus every single byte value, alone and in a 3-byte string, and 12 strings of 11..66 bytes) × every start bit in [0, 8·len+9] × every width 0..32: FromStr32 (count and value) and, for widths ≤30, PathOf against the slice [from, from+k) of the string's '0'/'1' rendering; PathsOf on every key list of length ≤4 over 5 short keys × dedup on/off × a (from,height) grid against map + adjacent-dedup of the reference paths. " +
 			"A case is one call; non-trivial when 0 < k (some bit is taken from the string) and the string is not all-zero.",
 		Assumptions: []string{"strings longer than N and other byte values are not enumerated (the function reads at most 5 bytes; spans of 1..5 bytes and starts before/at/after the end are all inside)"},
 		Run:         c11Run,
@@ -83,13 +83,40 @@ func c11RefPath(bits string, from, h int32) uint64 {
 
 var c11Alpha = []byte{0x00, 0xff, 0xa5, 0x5a, 0x01, 0x80}
 
+func c11InAlpha(b byte) bool {
+	for _, a := range c11Alpha {
+		if a == b {
+			return true
+		}
+	}
+	return false
+}
+
 func c11Run(c *mc.Ctx) {
 	N := c.Pick(5, 7)
 	strs := gen.Strings(c11Alpha, N)
+	for b := 0; b < 256; b++ { // every byte value, alone and followed by its complement
+		x := string([]byte{byte(b)})
+		if len(x) > 0 && !c11InAlpha(byte(b)) {
+			strs = append(strs, x)
+		}
+		strs = append(strs, x+string([]byte{^byte(b), byte(b)}))
+	}
 	for _, n := range []int{8, 9, 63} {
 		for v := 0; v < c09StemVariants; v++ {
 			strs = append(strs, c09StemV(n, v)+"\xa5\x5a\x01")
 		}
+	}
+	{ // the families overlap on a few strings: keep each once
+		seenS := map[string]bool{}
+		uniq := strs[:0]
+		for _, x := range strs {
+			if !seenS[x] {
+				seenS[x] = true
+				uniq = append(uniq, x)
+			}
+		}
+		strs = uniq
 	}
 	c.Set("max_string_length", N)
 	c.Set("strings", len(strs))
